@@ -50,6 +50,9 @@ theorem inRange_le_lt (lo hi : Int) (h : Option Int) :
   exact this
 
 
+theorem elim_eq_match'' {α β : Type} (o : Option α) (e : β) (f : α → β) :
+    o.elim e f = (match o with | none => e | some v => f v) := by cases o <;> rfl
+
 theorem none_or_not (h : Option Int) (p q : Bool) : (h.isNone || !(p && q)) = !(h.isSome && (p && q)) := by
   cases h <;> simp
 
@@ -125,113 +128,281 @@ theorem mssBounds_code (s : Sig) :
   have : Int.fdiv 65535 ((s.wsize : Nat) : Int) = 65535 / ((s.wsize : Nat) : Int) := Int.fdiv_eq_ediv_of_nonneg _ (by omega)
   rw [this]
 
+/-! ### stage-1 reference: a frozen copy of the printed layout loop (as generated from the pinned source); the printed loop of the
+    working tree is first shown equal to it (by `rfl`, or by unfolding + congruence + `grind` when the source was rewritten) -/
+namespace Ref
+open P0f
+def impOptionsLoop (s : Sig) (b : Base) (uptime : Option Int) (c : Choices) (tcp_type : Nat) : List Nat → (List SOpt) → (List (Nat × Nat)) → List SOpt
+  | [], options, rnd_stream =>
+    (alignOptions options)
+  | option :: xs, options, rnd_stream =>
+    let rnd := (List.headD rnd_stream (0, 0))
+    let rnd_stream : List (Nat × Nat) := (List.tail rnd_stream)
+    let impersonated_option : Option SOpt := (none : Option SOpt)
+    Sum.elim (fun r => r) (fun (j2 : (Option SOpt) × (List SOpt)) =>
+      let impersonated_option := j2.1
+      let options := j2.2
+      Option.elim impersonated_option (
+        (impOptionsLoop s b uptime c tcp_type xs options rnd_stream)) (fun impersonated_option =>
+        let options := options ++ [impersonated_option]
+        (impOptionsLoop s b uptime c tcp_type xs options rnd_stream)))
+      ((if (option == 2) then
+        let j4 : Int × Int :=
+          if (s.wtype == WinType.mss) then
+            let u6_0 := (100, (Int.fdiv (65535 : Int) ((s.wsize : Nat) : Int)))
+            let min_mss : Int := (u6_0.1 : Int)
+            let max_mss : Int := u6_0.2
+            (min_mss, max_mss)
+          else
+            let u6_0 := (0, 65535)
+            let min_mss : Int := (u6_0.1 : Int)
+            let max_mss : Int := (u6_0.2 : Int)
+            (min_mss, max_mss)
+        let min_mss := j4.1
+        let max_mss := j4.2
+        if ((optInt s.mss) == (-1)) then
+          let impersonated_option : (Option SOpt) :=
+            if ((Option.isSome b.mssHint) && ((Option.elim b.mssHint false (fun y => (decide (min_mss ≤ y)))) && (Option.elim b.mssHint false (fun x => (decide (x ≤ max_mss)))))) then
+              let impersonated_option := (SOpt.mss (Int.toNat (Option.getD b.mssHint 0)))
+              ((some impersonated_option))
+            else
+              let impersonated_option := (SOpt.mss rnd.1)
+              ((some impersonated_option))
+          (Sum.inr (impersonated_option, options))
+        else
+          let impersonated_option := (SOpt.mss (Int.toNat (optInt s.mss)))
+          (Sum.inr ((some impersonated_option), options))
+      else
+        if (option == 3) then
+          let impersonated_option : (Option SOpt) :=
+            if ((optInt s.scale) == (-1)) then
+              let max_window_scale : Int := (256 : Int)
+              if (QSet.subsetOf (QSet.ofList [.exws]) s.quirks) then
+                let impersonated_option : (Option SOpt) :=
+                  if ((Option.isSome b.wsHint) && ((Option.elim b.wsHint false (fun y => (decide ((14 : Int) < y)))) && (Option.elim b.wsHint false (fun x => (decide (x < max_window_scale)))))) then
+                    let impersonated_option := (SOpt.ws (Int.toNat (Option.getD b.wsHint 0)))
+                    ((some impersonated_option))
+                  else
+                    let impersonated_option := (SOpt.ws rnd.1)
+                    ((some impersonated_option))
+                (impersonated_option)
+              else
+                let impersonated_option : (Option SOpt) :=
+                  if ((Option.isSome b.wsHint) && ((Option.elim b.wsHint false (fun y => (decide ((0 : Int) ≤ y)))) && (Option.elim b.wsHint false (fun x => (decide (x ≤ (14 : Int))))))) then
+                    let impersonated_option := (SOpt.ws (Int.toNat (Option.getD b.wsHint 0)))
+                    ((some impersonated_option))
+                  else
+                    let impersonated_option := (SOpt.ws rnd.1)
+                    ((some impersonated_option))
+                (impersonated_option)
+            else
+              let impersonated_option := (SOpt.ws (Int.toNat (optInt s.scale)))
+              ((some impersonated_option))
+          (Sum.inr (impersonated_option, options))
+        else
+          Sum.elim (fun r => (Sum.inl r)) (fun (j5 : (Option SOpt) × (List SOpt)) =>
+            let impersonated_option := j5.1
+            let options := j5.2
+            (Sum.inr (impersonated_option, options)))
+            ((if (option == 8) then
+              let max_ts : Int := (4294967296 : Int)
+              let u7_3 := (b.ts1Hint, b.ts2Hint)
+              let ts1 := u7_3.1
+              let ts2 := u7_3.2
+              let ts1 : (Option Int) :=
+                if (QSet.subsetOf (QSet.ofList [.zeroTs1]) s.quirks) then
+                  let ts1 : Nat := 0
+                  ((some ts1))
+                else
+                  if ((Option.isSome uptime) && ((Option.elim uptime false (fun y => (decide ((0 : Int) < y)))) && (Option.elim uptime false (fun x => (decide (x < max_ts)))))) then
+                    let ts1 : Option Int := uptime
+                    (ts1)
+                  else
+                    let ts1 : (Option Int) :=
+                      if ((Option.isNone ts1) || (!((Option.elim ts1 false (fun y => (decide ((0 : Int) < y)))) && (Option.elim ts1 false (fun x => (decide (x < max_ts))))))) then
+                        let ts1 : Nat := rnd.1
+                        ((some ts1))
+                      else
+                        (ts1)
+                    (ts1)
+              let ts2 : (Option Int) :=
+                if (tcp_type == 2) then
+                  if (!(QSet.subsetOf (QSet.ofList [.nzTs2]) s.quirks)) then
+                    let ts2 : Nat := 0
+                    ((some ts2))
+                  else
+                    let ts2 : (Option Int) :=
+                      if ((Option.isNone ts2) || (!((Option.elim ts2 false (fun y => (decide ((0 : Int) < y)))) && (Option.elim ts2 false (fun x => (decide (x < max_ts))))))) then
+                        let ts2 : Nat := rnd.2
+                        ((some ts2))
+                      else
+                        (ts2)
+                    (ts2)
+                else
+                  if ((Option.isNone ts2) || (!((Option.elim ts2 false (fun y => (decide ((0 : Int) ≤ y)))) && (Option.elim ts2 false (fun x => (decide (x < max_ts))))))) then
+                    let ts2 : Nat := 0
+                    ((some ts2))
+                  else
+                    (ts2)
+              let impersonated_option := (SOpt.ts (Int.toNat (Option.getD ts1 0)) (Int.toNat (Option.getD ts2 0)))
+              (Sum.inr ((some impersonated_option), options))
+            else
+              if (option == 1) then
+                let impersonated_option := SOpt.nop
+                (Sum.inr ((some impersonated_option), options))
+              else
+                Sum.elim (fun r => (Sum.inl r)) (fun (j8 : (Option SOpt) × (List SOpt)) =>
+                  let impersonated_option := j8.1
+                  let options := j8.2
+                  (Sum.inr (impersonated_option, options)))
+                  ((if (option == 4) then
+                    let impersonated_option := SOpt.sackok
+                    (Sum.inr ((some impersonated_option), options))
+                  else
+                    if (option == 0) then
+                      let padding := (if (QSet.subsetOf (QSet.ofList [.eolNz]) s.quirks) then SOpt.nop else SOpt.eol)
+                      let options := options ++ [SOpt.eol]
+                      let options := options ++ List.replicate s.eolPad padding
+                      (Sum.inl (alignOptions options))
+                    else
+                      let impersonated_option : (Option SOpt) :=
+                        if (option == 5) then
+                          let impersonated_option := (SOpt.sack 8)
+                          ((some impersonated_option))
+                        else
+                          let impersonated_option := (SOpt.raw option 0)
+                          ((some impersonated_option))
+                      (Sum.inr (impersonated_option, options))) : Sum (List SOpt) ((Option SOpt) × (List SOpt)))) : Sum (List SOpt) ((Option SOpt) × (List SOpt)))) : Sum (List SOpt) ((Option SOpt) × (List SOpt)))
+end Ref
+
 /-- appending one option and going on = the model's `[o] ++ rest` -/
 theorem step_one (s : Sig) (b : Base) (uptime : Option Int) (c : Choices) (ks : List Nat)
     (ih : ∀ (options : List SOpt) (cs : List (Nat × Nat)),
-      Gen.impOptions_loop0 s b uptime c (impTcpType s b) ks options cs = alignOptions (options ++ impOptionsGo s b uptime ks cs))
+      Ref.impOptionsLoop s b uptime c (impTcpType s b) ks options cs = alignOptions (options ++ impOptionsGo s b uptime ks cs))
     (options : List SOpt) (cs : List (Nat × Nat)) (o : SOpt) :
-    Gen.impOptions_loop0 s b uptime c (impTcpType s b) ks (options ++ [o]) cs
+    Ref.impOptionsLoop s b uptime c (impTcpType s b) ks (options ++ [o]) cs
       = alignOptions (options ++ ([o] ++ impOptionsGo s b uptime ks cs)) := by
   rw [ih]; simp [List.append_assoc]
 
+theorem ref_impOptionsLoop (s : Sig) (b : Base) (uptime : Option Int) (c : Choices) :
+    ∀ (ks : List Nat) (options : List SOpt) (cs : List (Nat × Nat)),
+      Ref.impOptionsLoop s b uptime c (impTcpType s b) ks options cs = alignOptions (options ++ impOptionsGo s b uptime ks cs) := by
+  intro ks
+  induction ks with
+  | nil => intro options cs; unfold Ref.impOptionsLoop impOptionsGo; simp
+  | cons k ks ih =>
+    intro options cs
+    have one := step_one s b uptime c ks ih
+    unfold Ref.impOptionsLoop impOptionsGo impOption
+    simp only [subsetOf_single]
+    by_cases h2 : k = 2
+    · subst h2
+      simp only [beq_self_eq_true, if_true, mssBounds_code]
+      cases hm : s.mss with
+      | some m =>
+        have e : ((optInt (some m)) == -1) = false := by simp [optInt]
+        simp only [e, Bool.false_eq_true, if_false, Sum.elim_inr, Option.elim_some, optInt, Int.toNat_natCast]
+        exact one _ _ _
+      | none =>
+        have e : ((optInt none) == -1) = true := by simp [optInt]
+        simp only [e, if_true, Sum.elim_inr]
+        obtain ⟨lo, hi⟩ := mssBounds s
+        obtain ⟨h1, h2⟩ := inRange_le_le lo hi b.mssHint
+        simp only [h1]
+        cases hr : inRange lo hi b.mssHint with
+        | none => simp only [Option.isSome_none, Bool.false_eq_true, if_false, Option.elim_some]; exact one _ _ _
+        | some n => simp only [Option.isSome_some, if_true, Option.elim_some, h2 n hr]; exact one _ _ _
+    · have e2 : (k == 2) = false := by simpa using h2
+      simp only [e2, Bool.false_eq_true, if_false]
+      by_cases h3 : k = 3
+      · subst h3
+        simp only [beq_self_eq_true, if_true]
+        cases hw : s.scale with
+        | some w =>
+          have e : ((optInt (some w)) == -1) = false := by simp [optInt]
+          simp only [e, Bool.false_eq_true, if_false, Sum.elim_inr, Option.elim_some, optInt, Int.toNat_natCast]
+          exact one _ _ _
+        | none =>
+          have e : ((optInt none) == -1) = true := by simp [optInt]
+          simp only [e, if_true]
+          by_cases hx : s.quirks .exws = true
+          · simp only [hx, if_true]
+            obtain ⟨h1, h2⟩ := inRange_lt_lt 14 256 b.wsHint
+            simp only [h1]
+            have e15 : ((14 : Int) + 1) = 15 := rfl
+            have e255 : ((256 : Int) - 1) = 255 := rfl
+            rw [e15, e255] at h2 ⊢
+            cases hr : inRange 15 255 b.wsHint with
+            | none => simp only [Option.isSome_none, Bool.false_eq_true, if_false, Sum.elim_inr, Option.elim_some]; exact one _ _ _
+            | some n => simp only [Option.isSome_some, if_true, Sum.elim_inr, Option.elim_some, h2 n hr]; exact one _ _ _
+          · have hx' : s.quirks .exws = false := by simpa using hx
+            simp only [hx', Bool.false_eq_true, if_false]
+            obtain ⟨h1, h2⟩ := inRange_le_le 0 14 b.wsHint
+            simp only [h1]
+            cases hr : inRange 0 14 b.wsHint with
+            | none => simp only [Option.isSome_none, Bool.false_eq_true, if_false, Sum.elim_inr, Option.elim_some]; exact one _ _ _
+            | some n => simp only [Option.isSome_some, if_true, Sum.elim_inr, Option.elim_some, h2 n hr]; exact one _ _ _
+      · have e3 : (k == 3) = false := by simpa using h3
+        simp only [e3, Bool.false_eq_true, if_false]
+        by_cases h8 : k = 8
+        · subst h8
+          simp only [beq_self_eq_true, if_true, Sum.elim_inr, Option.elim_some, Bool.false_eq_true, if_false]
+          have hsyn : (impTcpType s b == 2) = (impTcpType s b == F_SYN) := rfl
+          rw [hsyn]
+          by_cases ht : (impTcpType s b == F_SYN) = true
+          · simp only [ht, if_true, ts1_code, ts2_syn_code]
+            exact one _ _ _
+          · simp only [ht, Bool.false_eq_true, if_false, ts1_code, ts2_ack_code]
+            exact one _ _ _
+        · have e8 : (k == 8) = false := by simpa using h8
+          simp only [e8, Bool.false_eq_true, if_false, Sum.elim_inr]
+          by_cases h1 : k = 1
+          · subst h1
+            simp only [beq_self_eq_true, if_true, Sum.elim_inr, Option.elim_some, Bool.false_eq_true, if_false]
+            exact one _ _ _
+          · have e1 : (k == 1) = false := by simpa using h1
+            simp only [e1, Bool.false_eq_true, if_false]
+            by_cases h4 : k = 4
+            · subst h4
+              simp only [beq_self_eq_true, if_true, Sum.elim_inr, Option.elim_some, Bool.false_eq_true, if_false]
+              exact one _ _ _
+            · have e4 : (k == 4) = false := by simpa using h4
+              simp only [e4, Bool.false_eq_true, if_false]
+              by_cases h0 : k = 0
+              · subst h0
+                simp only [beq_self_eq_true, if_true, Sum.elim_inl, List.append_assoc, List.singleton_append]
+              · have e0 : (k == 0) = false := by simpa using h0
+                simp only [e0, Bool.false_eq_true, if_false]
+                by_cases h5 : k = 5
+                · subst h5
+                  simp only [beq_self_eq_true, if_true, Sum.elim_inr, Option.elim_some, Bool.false_eq_true, if_false]
+                  exact one _ _ _
+                · have e5 : (k == 5) = false := by simpa using h5
+                  simp only [e5, Bool.false_eq_true, if_false, Sum.elim_inr, Option.elim_some]
+                  exact one _ _ _
+
+/-- the printed layout loop of the working tree = the model's `impOptionsGo` -/
 theorem gen_impOptionsLoop (s : Sig) (b : Base) (uptime : Option Int) (c : Choices) :
     ∀ (ks : List Nat) (options : List SOpt) (cs : List (Nat × Nat)),
       Gen.impOptions_loop0 s b uptime c (impTcpType s b) ks options cs = alignOptions (options ++ impOptionsGo s b uptime ks cs) := by
   first
   | (intro ks options cs; exact rfl)
-  | (intro ks
-     induction ks with
-     | nil => intro options cs; unfold Gen.impOptions_loop0 impOptionsGo; simp
-     | cons k ks ih =>
-       intro options cs
-       have one := step_one s b uptime c ks ih
-       unfold Gen.impOptions_loop0 impOptionsGo impOption
-       simp only [subsetOf_single]
-       by_cases h2 : k = 2
-       · subst h2
-         simp only [beq_self_eq_true, if_true, mssBounds_code]
-         cases hm : s.mss with
-         | some m =>
-           have e : ((optInt (some m)) == -1) = false := by simp [optInt]
-           simp only [e, Bool.false_eq_true, if_false, Sum.elim_inr, Option.elim_some, optInt, Int.toNat_natCast]
-           exact one _ _ _
-         | none =>
-           have e : ((optInt none) == -1) = true := by simp [optInt]
-           simp only [e, if_true, Sum.elim_inr]
-           obtain ⟨lo, hi⟩ := mssBounds s
-           obtain ⟨h1, h2⟩ := inRange_le_le lo hi b.mssHint
-           simp only [h1]
-           cases hr : inRange lo hi b.mssHint with
-           | none => simp only [Option.isSome_none, Bool.false_eq_true, if_false, Option.elim_some]; exact one _ _ _
-           | some n => simp only [Option.isSome_some, if_true, Option.elim_some, h2 n hr]; exact one _ _ _
-       · have e2 : (k == 2) = false := by simpa using h2
-         simp only [e2, Bool.false_eq_true, if_false]
-         by_cases h3 : k = 3
-         · subst h3
-           simp only [beq_self_eq_true, if_true]
-           cases hw : s.scale with
-           | some w =>
-             have e : ((optInt (some w)) == -1) = false := by simp [optInt]
-             simp only [e, Bool.false_eq_true, if_false, Sum.elim_inr, Option.elim_some, optInt, Int.toNat_natCast]
-             exact one _ _ _
-           | none =>
-             have e : ((optInt none) == -1) = true := by simp [optInt]
-             simp only [e, if_true]
-             by_cases hx : s.quirks .exws = true
-             · simp only [hx, if_true]
-               obtain ⟨h1, h2⟩ := inRange_lt_lt 14 256 b.wsHint
-               simp only [h1]
-               have e15 : ((14 : Int) + 1) = 15 := rfl
-               have e255 : ((256 : Int) - 1) = 255 := rfl
-               rw [e15, e255] at h2 ⊢
-               cases hr : inRange 15 255 b.wsHint with
-               | none => simp only [Option.isSome_none, Bool.false_eq_true, if_false, Sum.elim_inr, Option.elim_some]; exact one _ _ _
-               | some n => simp only [Option.isSome_some, if_true, Sum.elim_inr, Option.elim_some, h2 n hr]; exact one _ _ _
-             · have hx' : s.quirks .exws = false := by simpa using hx
-               simp only [hx', Bool.false_eq_true, if_false]
-               obtain ⟨h1, h2⟩ := inRange_le_le 0 14 b.wsHint
-               simp only [h1]
-               cases hr : inRange 0 14 b.wsHint with
-               | none => simp only [Option.isSome_none, Bool.false_eq_true, if_false, Sum.elim_inr, Option.elim_some]; exact one _ _ _
-               | some n => simp only [Option.isSome_some, if_true, Sum.elim_inr, Option.elim_some, h2 n hr]; exact one _ _ _
-         · have e3 : (k == 3) = false := by simpa using h3
-           simp only [e3, Bool.false_eq_true, if_false]
-           by_cases h8 : k = 8
-           · subst h8
-             simp only [beq_self_eq_true, if_true, Sum.elim_inr, Option.elim_some, Bool.false_eq_true, if_false]
-             have hsyn : (impTcpType s b == 2) = (impTcpType s b == F_SYN) := rfl
-             rw [hsyn]
-             by_cases ht : (impTcpType s b == F_SYN) = true
-             · simp only [ht, if_true, ts1_code, ts2_syn_code]
-               exact one _ _ _
-             · simp only [ht, Bool.false_eq_true, if_false, ts1_code, ts2_ack_code]
-               exact one _ _ _
-           · have e8 : (k == 8) = false := by simpa using h8
-             simp only [e8, Bool.false_eq_true, if_false, Sum.elim_inr]
-             by_cases h1 : k = 1
-             · subst h1
-               simp only [beq_self_eq_true, if_true, Sum.elim_inr, Option.elim_some, Bool.false_eq_true, if_false]
-               exact one _ _ _
-             · have e1 : (k == 1) = false := by simpa using h1
-               simp only [e1, Bool.false_eq_true, if_false]
-               by_cases h4 : k = 4
-               · subst h4
-                 simp only [beq_self_eq_true, if_true, Sum.elim_inr, Option.elim_some, Bool.false_eq_true, if_false]
-                 exact one _ _ _
-               · have e4 : (k == 4) = false := by simpa using h4
-                 simp only [e4, Bool.false_eq_true, if_false]
-                 by_cases h0 : k = 0
-                 · subst h0
-                   simp only [beq_self_eq_true, if_true, Sum.elim_inl, List.append_assoc, List.singleton_append]
-                 · have e0 : (k == 0) = false := by simpa using h0
-                   simp only [e0, Bool.false_eq_true, if_false]
-                   by_cases h5 : k = 5
-                   · subst h5
-                     simp only [beq_self_eq_true, if_true, Sum.elim_inr, Option.elim_some, Bool.false_eq_true, if_false]
-                     exact one _ _ _
-                   · have e5 : (k == 5) = false := by simpa using h5
-                     simp only [e5, Bool.false_eq_true, if_false, Sum.elim_inr, Option.elim_some]
-                     exact one _ _ _)
+  | (have h : ∀ (t : Nat) (ks : List Nat) (options : List SOpt) (cs : List (Nat × Nat)),
+         Gen.impOptions_loop0 s b uptime c t ks options cs = Ref.impOptionsLoop s b uptime c t ks options cs := by
+       intro t ks
+       induction ks with
+       | nil => intros; first | rfl | (unfold Gen.impOptions_loop0 Ref.impOptionsLoop; rfl)
+       | cons k ks ih =>
+         intros
+         unfold Gen.impOptions_loop0 Ref.impOptionsLoop
+         try simp only [ih]
+         all_goals first
+           | rfl
+           | grind (splits := 120)
+           | (simp only [elim_eq_match'']; grind (splits := 400) [Sum.elim_inl, Sum.elim_inr])
+     intro ks options cs
+     rw [h]
+     exact ref_impOptionsLoop s b uptime c ks options cs)
 
 /-- `_impersonate_options` as printed from the source = the model's: for every signature, base packet (hints), `uptime` and drawn
     values, the same list of option tuples - fixed values override hints, admissible hints are used, inadmissible ones replaced
